@@ -20,7 +20,7 @@
 (*     negative region, which also fixes the global orientation (judged:   *)
 (*     both volumes and the tolerance area x cell size are computed in f64 *)
 (*     by the harness and logged as integers in units of 1e-6; the         *)
-(*     tolerance is 3 x that up to depth 3 and 1.5 x from depth 4 on).     *)
+(*     tolerance is 3 x that up to depth 3; from depth 4 on 1.5 x for random CSG, 0.8 x otherwise).     *)
 (***************************************************************************)
 EXTENDS Mdc, Json, IOUtils
 
